@@ -31,6 +31,25 @@ namespace GeographicLib {
     return northoffset;
   }
 
+  // Return floor((x - floor(x)) * mult), computed exactly; xf = x - floor(x).
+  static int fracdigits(Math::real x, Math::real xf, Math::real mult) {
+    typedef Math::real real;
+    if (x >= 0 || x <= -1) {
+      // Here xf is exact.  The product is rounded; make sure that a point just
+      // below a cell boundary isn't moved across it.
+      real r = floor(xf * mult);
+      if (fma(xf, mult, -r) < 0) --r;
+      return int(r);
+    } else {
+      // For x in (-1, 0), xf = x + 1 is rounded.  Use the exact t = -x
+      // instead, floor((1 - t) * mult) = mult - ceil(t * mult).
+      real t = -x, r = floor(t * mult), e = fma(t, mult, -r);
+      if (e < 0) { --r; e = 1; }
+      // Now r = floor(t * mult) and e == 0 iff t * mult is an integer
+      return int(e == 0 ? mult - r : mult - 1 - r);
+    }
+  }
+
   void OSGB::GridReference(real x, real y, int prec, std::string& gridref) {
     using std::isnan;           // Needed for Centos 7, ubuntu 14
     CheckCoords(x, y);
@@ -71,14 +90,9 @@ namespace GeographicLib {
     }
     if (prec > tilelevel_) {
       // Need extra real because, since C++11, pow(float, int) returns double
-      real mult = real(pow(real(base_), prec - tilelevel_)),
-        xr = floor(xf * mult), yr = floor(yf * mult);
-      // The products are rounded; make sure that a point just below a cell
-      // boundary isn't moved across it.
-      if (fma(xf, mult, -xr) < 0) --xr;
-      if (fma(yf, mult, -yr) < 0) --yr;
-      ix = int(xr);
-      iy = int(yr);
+      real mult = real(pow(real(base_), prec - tilelevel_));
+      ix = fracdigits(x, xf, mult);
+      iy = fracdigits(y, yf, mult);
       for (int c = prec - tilelevel_; c--;) {
         grid[z + c + tilelevel_] = digits_[ ix % base_ ];
         ix /= base_;
